@@ -5,7 +5,7 @@ import subprocess
 
 import vlib
 
-EP = ["value", "value_rd", "perf", "perf_rd", "sasl", "msg", "msg_rd", "dstate", "error", "source", "lazy", "framedec", "saslcodec"]
+EP = ["value", "value_rd", "perf", "perf_rd", "sasl", "msg", "msg_rd", "dstate", "error", "source", "lazy", "framedec", "saslcodec", "framehdr"]
 
 
 ZW = {0x40, 0x41, 0x42, 0x43, 0x44, 0x45}
